@@ -16,7 +16,8 @@ LEVEL = 'exploration'
 TECHNIQUE = ('Hypothesis-generated mixed-type criteria ranges x a criteria '
              'grammar (numbers, operator prefixes, text, wildcards, empty) '
              'against a reference matcher, plus metamorphic laws between the '
-             '...IF and ...IFS families')
+             '...IF and ...IFS families'
+             '; case-swap metamorphic law; order-independence probe')
 LEVEL_TEXT = ('Exploration over sampled ranges up to 5x3 and 1-3 criteria '
               'pairs from a grammar; every criterion value is also used in '
               'its "=x"/"<>x" forms so the partition law runs on every case.')
